@@ -6,10 +6,16 @@ bound): the hand-written lattice model `Model/Lattices/RotatedPlanar2DCode.lean`
 commute, whose logicals commute with the stabilizers and anticommute with each other;
 `n = Lx·Ly`, `k = 1`; `get_deformation` follows the stated rule at every location.
 
-Not proved here for all sizes: the rank clause (`rank H = n − k`); it is covered per instance
-by the kernel-checked tables of `Properties/C01.lean`.
+Rank clause, for all sizes, at the operator level: the generators at all stabilizer locations are independent
+(`IndepGenerators`: every non-empty sub-family has a Pauli operator on the qubits that
+anticommutes with an odd number of its members, hence with their product), and there are exactly
+`n − k` of them.  What is NOT proved here is the translation of this operator-level statement into
+`finrank (span rows) = n − k` over `ZMod 2` (it needs the bridge `opAntiCount` ↔ symplectic form,
+bilinearity, and the generic upper bound of `Properties/C01.lean`); the matrix-level rank is
+covered per instance by the kernel-checked tables of `Properties/C01.lean`.
 -/
-import PanqecVerif.Proofs.LatRotatedPlanar2DCodeC
+import PanqecVerif.Proofs.LatRotatedPlanar2DCodeRank
+import PanqecVerif.Proofs.LatRotatedPlanar2DCodeCount
 
 namespace Panqec.C01RotatedPlanar2DCode
 open Panqec.RotatedPlanar2DCode Panqec.Lat2D
@@ -30,6 +36,21 @@ theorem n_formula (Lx Ly : Nat) : (lattice Lx Ly).toCodeData.n = Lx * Ly :=
 
 /-- `k = 1` (every size) -/
 theorem k_value (Lx Ly : Nat) : (lattice Lx Ly).toCodeData.k = 1 := rfl
+
+/-- rank clause, operator level: the generators at ALL stabilizer locations are independent —
+    every non-empty duplicate-free sub-family `T` has a Pauli operator `d` on the qubits
+    anticommuting with an odd number of members of `T` (so no non-trivial product of generators
+    is trivial) — every `Lx, Ly ≥ 1` -/
+theorem generators_independent (Lx Ly : Nat) (hx : 1 ≤ Lx) (hy : 1 ≤ Ly) :
+    IndepGenerators (lattice Lx Ly) (lattice Lx Ly).stabs :=
+  indep_all hx hy
+
+/-- there are exactly `n − k = Lx·Ly − 1` generators (`Lx, Ly ≥ 1`): the count of the
+    `(x + y) % 4` guard over the two nested loops -/
+theorem generators_count (Lx Ly : Nat) (hx : 1 ≤ Lx) (hy : 1 ≤ Ly) :
+    (lattice Lx Ly).stabs.length + (lattice Lx Ly).toCodeData.k = (lattice Lx Ly).toCodeData.n := by
+  rw [n_formula, k_value]
+  exact length_stabs hx hy
 
 /-- `is_qubit` in closed form -/
 theorem isQubit_rule (Lx Ly : Nat) (x y : Int) :
@@ -106,5 +127,8 @@ example : (lattice 3 2).getStab [6, 2] = [([5, 1], .X), ([5, 3], .X)] := by deci
 example : (lattice 3 2).toCodeData.n = 6 := by decide
 example : getDeformation "XZZX" "x" [1, 1] = some PauliMap.swapXZ := by decide
 example : getDeformation "XZZX" "x" [1, 3] = some PauliMap.id := by decide
+example : IndepGenerators (lattice 3 2) (lattice 3 2).stabs :=
+  generators_independent 3 2 (by decide) (by decide)
+example : (lattice 3 2).stabs.length = 5 := by decide
 
 end Panqec.C01RotatedPlanar2DCode
